@@ -105,7 +105,7 @@ Proof. exact @predict_insert. Qed.
 Print Assumptions c03_prediction_and_insertion_agree_step_by_step.
 
 (* OW k w: the entity map is well formed, the cursor invariant holds with promised list ks, and k is in ks or was
-   created (live, or dead for good).  The reservation that returns k establishes it ... *)
+   created (live, or dead for good) or is the null id that events without an id carry.  The reservation that returns k establishes it ... *)
 Theorem c03_the_id_a_reservation_returns_is_owed :
   forall (w : world) (k : key) (w' : world), SmInv (w_ents w) -> ReserveInv w -> reserve w = ROk k w' -> OW k w'.
 Proof. exact reserved_id_is_owed. Qed.
@@ -121,7 +121,7 @@ Print Assumptions c03_an_owed_id_stays_owed_through_a_propagation.
 
 (* ... the Spawn effect cannot fail under it, creates the id and leaves nothing reserved ... *)
 Theorem c03_the_spawn_effect_creates_every_owed_id :
-  forall (k : key) (ev : evv) (loc : eloc) (w : world), OW k w ->
+  forall (k : key) (ev : evv) (loc : eloc) (w : world), k <> KEY_NULL -> OW k w ->
     exists w', builtin_effect KSpawn ev loc w = ROk tt w' /\ Quiet w' /\ (sm_get k (w_ents w') <> None \/ Dead (w_ents w') k).
 Proof. exact spawn_effect_creates_owed. Qed.
 Print Assumptions c03_the_spawn_effect_creates_every_owed_id.
@@ -130,7 +130,7 @@ Print Assumptions c03_the_spawn_effect_creates_every_owed_id.
    the id of a live entity, or of an entity despawned since, whose id is dead for good. *)
 Theorem c03_an_owed_id_was_created_when_the_propagation_ends :
   forall (beh : hinfo -> logent -> N -> script) (k : key) (q : list qitem) (w : world),
-    OW k w -> ~ ubf (EvLedger.res_fail (flush beh q w)) -> w_rcnt (WorldFrame.res_world (flush beh q w)) = 0 ->
+    k <> KEY_NULL -> OW k w -> ~ ubf (EvLedger.res_fail (flush beh q w)) -> w_rcnt (WorldFrame.res_world (flush beh q w)) = 0 ->
     let w' := WorldFrame.res_world (flush beh q w) in sm_get k (w_ents w') <> None \/ Dead (w_ents w') k.
 Proof. exact owed_id_is_created. Qed.
 Print Assumptions c03_an_owed_id_was_created_when_the_propagation_ends.
@@ -142,3 +142,24 @@ Theorem c03_a_promised_id_is_not_created_before :
   (exists m', inserts 2%nat (fun _ => (0, 0)) mx = Some ([(0, 3); (2, 1)], m') /\ forall k, In k [(0, 3); (2, 1)] -> sm_get k m' <> None).
 Proof. exact promised_ids_are_not_created_yet. Qed.
 Print Assumptions c03_a_promised_id_is_not_created_before.
+
+(* The link from a Sender::spawn inside a handler body: every event a handler invocation queues carries the null id
+   or an id that is owed in the world the invocation leaves (RO: entity map well formed + cursor invariant) ... *)
+Theorem c03_every_event_a_handler_queues_carries_an_owed_id :
+  forall (beh : hinfo -> logent -> N -> script) (w : world) (h : hinfo) (it : qitem) (tag : N) (loc : eloc), RO w ->
+    forall x, In x (hr_sent (fst (run_handler beh w h it tag loc))) ->
+      nullid x \/ OW (ev_id (qi_ev x)) (snd (run_handler beh w h it tag loc)).
+Proof. exact run_handler_spawn_owed. Qed.
+Print Assumptions c03_every_event_a_handler_queues_carries_an_owed_id.
+
+(* ... and the whole propagation, as one statement over the stack machine: every event that was delivered and carries an
+   id carries one that was created by the time the propagation is over with nothing reserved. *)
+Theorem c03_every_delivered_spawn_id_was_created :
+  forall (beh : hinfo -> logent -> N -> script) (q : list qitem) (w : world) (tr : list qitem) (w' : world)
+         (fl : option fail) (oc : Loop.outcome),
+    Loop.flush wst qitem (run_w beh) unwind_w FUEL q (w, None) [] = Some (tr, (w', fl), oc) ->
+    RO w -> owed_all q w -> (oc = Loop.Aborted -> ~ ubf fl) -> w_rcnt w' = 0 ->
+    forall x, In x tr -> ev_id (qi_ev x) <> KEY_NULL ->
+      sm_get (ev_id (qi_ev x)) (w_ents w') <> None \/ Dead (w_ents w') (ev_id (qi_ev x)).
+Proof. exact delivered_spawn_ids_are_created. Qed.
+Print Assumptions c03_every_delivered_spawn_id_was_created.
